@@ -540,6 +540,30 @@ func (e *Env) call(x *ECall) Val {
 		}
 		comp, _ := r.elemComp(et)
 		return termVal(Select(r.heapGet(e.state(), comp), slBase(e.term(v))), nil)
+	case "box":
+		// box(q, "T"): the value stored in the box of type T that pointer q designates
+		if !argN(2) {
+			return e.fail("box")
+		}
+		q := e.term(e.eval(x.Args[0]))
+		ts, ok := x.Args[1].(*EStr)
+		if !ok {
+			return e.fail("box needs a type string")
+		}
+		typ := r.resolveType(e.pkg, ts.V)
+		if typ == nil {
+			return e.fail("unknown type %q", ts.V)
+		}
+		comp, _ := r.boxComp(typ)
+		return termVal(Select(r.heapGet(e.state(), comp), q), typ)
+	case "bytes_row":
+		// bytes_row(base): the whole backing array identified by base (an SMT array)
+		if !argN(1) {
+			return e.fail("bytes_row")
+		}
+		b := e.term(e.eval(x.Args[0]))
+		comp, _ := r.elemComp(types.Typ[types.Uint8])
+		return termVal(Select(r.heapGet(e.state(), comp), b), nil)
 	case "bytes_at":
 		// bytes_at(base, j): byte j of the backing array identified by base
 		if !argN(2) {
